@@ -39,6 +39,9 @@ RULE = ("random bait tables on 1..3 chromosomes drawn from canonical and non-can
         "sizes, arguments by position / by keyword / left out when they equal the default (annotate=None, "
         "do_short_names=False, do_split=False, avg_size=200/0.75; access=None, avg_bin_size=150000, "
         "min_bin_size=None). "
+        "Round 4 corpus: every bait zero-width + annotation file (empty table reaches compare_chrom_names), the 3/4 bound "
+        "attained at avg = 4k with the minimum on / one above 3k, the name-length branch of the contig rule with kept and "
+        "dropped untargeted contigs of both kinds, no access table with the last target row nested in an earlier one. "
         "non-trivial = the model output has at least one bin and (antitarget) some target lies on an accessible "
         "contig or (target) at least two baits interact or a bait is split; distinct = distinct case by hash")
 EXHAUSTIVE = {"quick": False, "thorough": False}
@@ -55,6 +58,9 @@ TRUSTED_EXTRA = [
     "tabio.read_auto reading the scratch BED annotation file (C08's subject)",
     "Python `re` semantics of the contig-name pattern as interpreted by ruleMatches (Model/Access.lean)",
     "Python set iteration order in shorten_labels' `min(names, key=len)`: the model lists every minimal name",
+    "harness/settrans.py (reading of the rules over sets of names: sets as duplicate-free lists, comprehensions as "
+    "filters, truthiness of a collection, max(map(len, S)); rules stated at the top of the file) and the round-4 "
+    "additions to harness/exprtrans.py (power of two literals, short-circuit folding, argument_of)",
 ]
 
 CANON = ["chr1", "chr2", "chr10", "chr22", "chrX"]
@@ -258,6 +264,34 @@ def corpus():
         {"op": "antitarget", "tag": "corpus", "in": {"tg": [["chr1", 2000, 2100, "a"]],
                                                      "acc": [["chr1", 0, 2000, "x"], ["chr1", 2000, 9000, "y"]],
                                                      "avg": "700", "avg_f": 700, "min": 100, "acc_gene": True}},
+        # round 4 -- every bait zero-width + an annotation file: the bait table is empty when `compare_chrom_names`
+        # sees it, and `if a_chroms and ...` must let it pass (theorem chrom_names_clash_is_the_source)
+        {"op": "target", "tag": "corpus-empty-annot",
+         "in": {"baits": [["chr1", 100, 100, "z"], ["chr1", 300, 300, "y"]], "annot": [["chr1", 0, 600, "G1"]],
+                "short": False, "split": True, "avg": "200", "avg_f": 200}},
+        {"op": "target", "tag": "corpus-empty-annot",
+         "in": {"baits": [["chr2", 100, 100, "z"]], "annot": [["chr1", 0, 600, "G1"]],
+                "short": True, "split": False, "avg": "200", "avg_f": 200}},
+        # round 4 -- the 3/4 bound attained (anti_three_quarters_bound_is_sharp, k = 300): 1800 free bases at
+        # avg 1200 give two bins of 900; min = 900 = 3/4 avg is respected, min = 901 is finding K
+        {"op": "antitarget", "tag": "corpus-K-sharp",
+         "in": {"tg": [["chr1", 10200, 10300, "a"]], "acc": [["chr1", 0, 2800, "x"], ["chr1", 10000, 10600, "y"]],
+                "avg": "1200", "avg_f": 1200, "min": 900, "acc_gene": True}},
+        {"op": "antitarget", "tag": "corpus-K",
+         "in": {"tg": [["chr1", 10200, 10300, "a"]], "acc": [["chr1", 0, 2800, "x"], ["chr1", 10000, 10600, "y"]],
+                "avg": "1200", "avg_f": 1200, "min": 901, "acc_gene": True}},
+        # round 4 -- the name-length branch of the contig rule (contig_rule_exact): no canonical target; untargeted
+        # contigs are kept iff their name is no longer than the longest targeted name, canonical or not
+        {"op": "antitarget", "tag": "corpus-length-rule",
+         "in": {"tg": T.sort_rows([["chr6_cox_hap2", 3000, 3100, "a"], ["chrM", 3000, 3100, "m"]]),
+                "acc": T.sort_rows([["chr1", 0, 5000, "x"], ["chr1_KI270706v1_random", 0, 5000, "x"],
+                                    ["chr6_cox_hap2", 0, 9000, "x"], ["chrEBV", 0, 5000, "x"], ["chrM", 0, 9000, "x"]]),
+                "avg": "1000", "avg_f": 1000, "min": 100, "acc_gene": True}},
+        # round 4 -- no access table, the last target row nested in an earlier one: the guessed extent ends at
+        # the end of the LAST row (guessed_extents), not at the largest end
+        {"op": "antitarget", "tag": "corpus-guess-nested",
+         "in": {"tg": [["chr1", 200000, 290000, "a"], ["chr1", 210000, 220000, "b"], ["chr2", 300000, 300100, "c"]],
+                "acc": None, "avg": "10000", "avg_f": 10000, "min": None, "acc_gene": True}},
         # excluded point avg = 0 (run, not compared)
         {"op": "antitarget", "tag": "corpus-avg0", "in": {"tg": [["chr1", 2000, 2100, "a"]],
                                                           "acc": [["chr1", 0, 9000, "x"]],
